@@ -499,6 +499,7 @@ RunResult run_plan(const Plan &plan, const RunOpts &opts) {
   r.out.probes[P_data_at_death] += K->n_data_at_death;
   r.out.probes[P_descendant_left] += K->n_descendants;
   r.out.probes[P_thread_stalled] += K->n_stalls;
+  r.out.probes[P_errno_clobbered_by_handler] += K->n_errno_clobbered;
   r.out.probes[P_wall_clock_stepped] += K->w.clock_step_at_ms >= 0 && K->now_ns >= K->w.clock_step_at_ms * 1000000 ? 1 : 0;  // whether or not the library reads that clock
   r.out.probes[P_reoccupied] += K->reoccupied.size();
   for (auto &f : K->faults) {
